@@ -758,8 +758,8 @@ func (e *Engine) mapLookup(st *State, m MapV, key Value, commaOk bool, elemT typ
 	// try to fold into one value
 	brs = append(brs, branch{cond: none, val: mk(z, false)})
 	acc := brs[len(brs)-1].val
-	okAll := true
-	for i := len(brs) - 2; i >= 0; i-- {
+	okAll := e.mergeOn
+	for i := len(brs) - 2; i >= 0 && okAll; i-- {
 		mv, ok := mergeVal(brs[i].cond, brs[i].val, acc)
 		if !ok {
 			okAll = false
@@ -878,7 +878,7 @@ func (e *Engine) next(f *frame, it *item, x *ssa.Next, iv *IterV) ([]branch, boo
 	}
 	if p >= len(iv.keys) {
 		kt := x.Type().(*types.Tuple)
-		set(TupleV{FF, zero(kt.At(1).Type()), zero(kt.At(2).Type())})
+		set(TupleV{FF, zeroOrNil(kt.At(1).Type()), zeroOrNil(kt.At(2).Type())})
 		return nil, true
 	}
 	k := iv.keys[p]
@@ -895,3 +895,10 @@ func (e *Engine) next(f *frame, it *item, x *ssa.Next, iv *IterV) ([]branch, boo
 }
 
 var _ = math.MaxInt32
+
+func zeroOrNil(t types.Type) Value {
+	if b, ok := t.(*types.Basic); ok && b.Kind() == types.Invalid {
+		return nil
+	}
+	return zero(t)
+}
